@@ -6,7 +6,7 @@ import os
 from tfv import core, ref
 from tfv.core import Violation, run_async
 from tfv.gen import gen_const_value, gen_schema, gen_split, literal_to_json, wrap_type
-from tfv.impl import Harness, clean_registry
+from tfv.impl import ArgHarness, clean_registry
 from tfv.model import BUILTIN_SCALARS, canon, kind_of, named, print_document, ty, ty_str
 from tfv.ref import RefInputError, coerce_argument_values, coerce_variable_values
 
@@ -24,7 +24,8 @@ RULE = (
     "refusal (data null, zero resolver calls, every offending variable named) exactly when the reference rejects, else the "
     "resolvers observe exactly the reference's coerced dictionaries. Input objects / enums may be spelled as definition + `extend` "
     "block in the SDL; several requests per engine, and the dictionaries handed to resolvers are modified in place after each request "
-    "(nothing of that may reach a later one). Distinct = SHA-1 of (types, defaults, provided values); "
+    "(nothing of that may reach a later one); a quarter of the accepted requests are re-sent as a subscription on the same echo "
+    "field, where source generator and resolver must observe the same dictionary. Distinct = SHA-1 of (types, defaults, provided values); "
     "non-trivial = coercion involved a single-value list wrap, an injected default, or an accept/reject decision at depth >= 2."
 )
 ASSUMPTIONS = ["integral floats for Int/ID are transport-dependent: accepted either way, but if accepted the delivered value must be the equal int/str"]
@@ -142,11 +143,13 @@ def build_engine(c):
         q["fields"]["e%d" % i] = {"type": "String", "args": {"a": ad}}
     schema["types"] = {n: d for n, d in schema["types"].items() if d["kind"] in ("SCALAR", "ENUM", "INPUT")}
     schema["types"]["Query"] = q
-    schema["roots"] = {"query": "Query"}
+    # the same echo fields as roots of subscriptions: their source generators get the coerced values too
+    schema["types"]["Subscription"] = {"kind": "OBJECT", "interfaces": [], "fields": copy.deepcopy(q["fields"])}
+    schema["roots"] = {"query": "Query", "subscription": "Subscription"}
     clean_registry()
     # input objects and enums may be spelled as definition + `extend` block; resolvers work on their arguments in place
     schema["plan"] = {"default_fields": [], "sdl_split": gen_split(c, schema, ("INPUT", "ENUM")), "scramble_args": True}
-    h = Harness(schema, schema["plan"], None)
+    h = ArgHarness(schema, schema["plan"], None)
     # echo resolvers
     h.serve = lambda rs, parent, obj, field, args, path: "ok"
     run_async(h.build())
@@ -201,7 +204,7 @@ def make_request(c, schema, types):
         provided["zzUndeclared"] = c.choice([1, None, "x", [1]])
         labels.append("extra_undeclared")
     doc = {"defs": [{"k": "op", "type": "query", "name": "Q", "vars": vars_, "dirs": [], "sels": sels, "id": 99}]}
-    return {"schema": schema, "types": types, "doc": doc, "variables": provided}, labels
+    return {"schema": schema, "types": types, "doc": doc, "variables": provided, "sub_alias": c.choice(sels)["alias"] if c.maybe(25) else None}, labels
 
 
 def expectation(spec, borderline):
@@ -226,7 +229,7 @@ def check(spec, h=None):
     schema = spec["schema"]
     if h is None:
         clean_registry()
-        h = Harness(schema, schema.get("plan") or {"default_fields": []}, None)
+        h = ArgHarness(schema, schema.get("plan") or {"default_fields": []}, None)
         h.serve = lambda rs, parent, obj, field, args, path: "ok"
         run_async(h.build())
         for old in spec.get("history") or ():  # the requests this engine served before (replay of a shrunk failure)
@@ -248,9 +251,44 @@ def check(spec, h=None):
     for e in ([e1] if canon(core.jsonable(e1.get("bad"))) == canon(core.jsonable(e2.get("bad"))) and canon(core.jsonable(e1.get("calls"))) == canon(core.jsonable(e2.get("calls"))) else [e1, e2]):
         msg = compare(spec, printed, resp, got_calls, e)
         if msg is None:
+            msg = check_as_subscription(spec, h, e)
+        if msg is None:
             return e1["trace"] | e2["trace"], e
         failures.append(msg)
     raise Violation(spec, failures[0] + ctx, tag="c04")
+
+
+def check_as_subscription(spec, h, e):
+    """one selection of an accepted request sent as a subscription: the source generator and the per-event resolver
+    observe the same coerced dictionary the query resolver did"""
+    alias = spec.get("sub_alias")
+    if alias is None or e["bad"] or not h.schema["roots"].get("subscription"):
+        return None
+    op = spec["doc"]["defs"][0]
+    s = [x for x in op["sels"] if x["alias"] == alias][0]
+    used = [s["args"][0][1][1]]
+    sdoc = {"defs": [{"k": "op", "type": "subscription", "name": "Q", "vars": [vd for vd in op["vars"] if vd["name"] in used], "dirs": [], "sels": [s], "id": 99}]}
+    text = print_document(sdoc).text
+    variables = {k: v for k, v in copy.deepcopy(spec["variables"]).items() if k in used or k == "zzUndeclared"}
+    h.reset_logs()
+    h.sargs = []
+
+    async def go():
+        return [r async for r in h.engine.subscribe(text, operation_name="Q", context=h.ctx_token, variables=variables)]
+
+    try:
+        out = run_async(go())
+    except Exception as ex:  # noqa
+        return "subscribe raised %r for %s with %r" % (ex, text, variables)
+    h.scramble_live()
+    want = e["calls"][alias]
+    seen = {"source generator": [a for _, a in h.sargs], "resolver": [args for p, co, nid, args, ok in h.calls]}
+    if out != [{"data": {alias: "ok"}}]:
+        return "as a subscription (%s, variables %r) the accepted request is answered %r" % (text, variables, out)
+    for who, lst in seen.items():
+        if len(lst) != 1 or canon(core.jsonable(lst[0])) != canon(core.jsonable(want)) or not same_types(lst[0], want):
+            return "as a subscription (%s, variables %r) the %s observed %r, the specification prescribes %r" % (text, variables, who, lst, want)
+    return None
 
 
 def compare(spec, printed, resp, got_calls, e):
